@@ -98,6 +98,16 @@ CasesCross ==
          line |-> [inl |-> NoGroup, cap |-> Groups7(G(<<50, 48, 50, 49>>), NoGroup, NoGroup), extra |-> ex, doc |-> NoDoc, tag |-> NoGroup, ndk |-> 0]] :
           ex \in {<<<<49, 50>>, <<51, 49>>>>, <<<<50>>, <<51, 48>>>>, <<<<74, 117, 110>>, <<55>>>>, <<>>}}
 
+\* (iv-c) array / TIMESTAMP columns over split fields listed in an order that is not ascending (the year late in the line but listed first), lines with
+\* more fields than the highest one referenced
+CasesSplitOrder ==
+  {[cols |-> <<Multi(<<Ref("s", 4), Ref("s", 2), Ref("s", 3)>>, ty, el), One("s", 2, "int")>>,
+    line |-> [inl |-> NoGroup, cap |-> NoMatch, extra |-> ex, doc |-> NoDoc, tag |-> NoGroup, ndk |-> 0]] :
+     ty \in {"arr"}, el \in {"int", "text"}, ex \in {<<<<54>>, <<49, 55>>, <<50, 48, 48, 53>>>>, <<<<54>>, <<49, 55>>, <<50, 48, 48, 53>>, <<57>>, <<56>>>>, <<<<54>>, <<49, 55>>>>}}
+  \cup {[cols |-> <<[Multi(<<Ref("s", 4), Ref("s", 2), Ref("s", 3)>>, "ts", "") EXCEPT !.def = NoDef]>>,
+          line |-> [inl |-> NoGroup, cap |-> NoMatch, extra |-> ex, doc |-> NoDoc, tag |-> NoGroup, ndk |-> 0]] :
+           ex \in {<<<<54>>, <<49, 55>>, <<50, 48, 48, 53>>>>, <<<<54>>, <<49, 55>>, <<50, 48, 48, 53>>, <<57>>>>}}
+
 \* (v) split fields, inline pattern, several patterns, a second match later in the line
 SecondMatch == <<80, 58, 65, 60, 57, 57, 62>>     \* "P:A<99>" appearing after the first match
 CasesSplit ==
@@ -147,7 +157,7 @@ CasesJsonLayout ==
      c.line.doc.k = "arr" => c.line.tag = NoGroup}         \* the harness can only plant the tag text inside a top-level object
 
 Cases == (IF "types" \in CaseSets THEN CasesTypes ELSE {}) \cup (IF "rows" \in CaseSets THEN CasesRows \cup CasesTwoNotNull ELSE {})
-         \cup (IF "ts" \in CaseSets THEN CasesTs ELSE {}) \cup (IF "arrays" \in CaseSets THEN CasesArrays \cup CasesCross ELSE {})
+         \cup (IF "ts" \in CaseSets THEN CasesTs ELSE {}) \cup (IF "arrays" \in CaseSets THEN CasesArrays \cup CasesCross \cup CasesSplitOrder ELSE {})
          \cup (IF "split" \in CaseSets THEN CasesSplit ELSE {})
          \cup (IF "jsonleaf" \in CaseSets THEN CasesJsonLeaf ELSE {}) \cup (IF "jsonpath" \in CaseSets THEN CasesJsonPath \cup CasesJsonLayout ELSE {})
 
